@@ -5,6 +5,7 @@ import InToto.Driver.Subst
 import InToto.Driver.Misc
 import InToto.Driver.Cert
 import InToto.Driver.Verify
+import InToto.Driver.Sign
 import InToto.Model.Glob
 import InToto.Spec.Glob
 
@@ -29,6 +30,7 @@ def handle (j : Json) : Json :=
   let a := fld j "args"
   let quirks := getStrs j "quirks"
   let q (s : String) : Bool := quirks.contains s
+  if op == "survive" then Json.str "ok" else
   match handleGlob op a q with
   | some r => r
   | none =>
@@ -48,6 +50,9 @@ def handle (j : Json) : Json :=
   | some r => r
   | none =>
   match handleVerify op a with
+  | some r => r
+  | none =>
+  match handleSign op a with
   | some r => r
   | none => Json.mkObj [("error", Json.str ("unknown op " ++ op))]
 
